@@ -24,7 +24,7 @@ func TestC20(t *testing.T) {
 			"transfers (to fresh, funded, existing, same key; by current app / stranger / forged pubkey / new key), begin-unstakes, gov param changes, sends. "+
 			"Oracle after every Commit: balance of the application staked pool (auth store) == sum of StakedTokens over raw application records with status Staked or Unstaking. "+
 			"non-trivial = an application that was the target of a successful transfer or a successful stake bump later completes unstaking (record removed at maturity) in the same history",
-		map[string]float64{"transfer-ok": 0.4, "edit-bump-ok": 0.4, "unstake-completed": 0.6, "transfer-then-unstake-completed": 0.1, "bump-then-unstake-completed": 0.15},
+		map[string]float64{"transfer-ok": 0.4, "edit-bump-ok": 0.4, "unstake-completed": 0.6, "transfer-then-unstake-completed": 0.1, "bump-then-unstake-completed": 0.1},
 		func(rt *rapid.T, c *harness.Case) {
 			w := genAppWorld(rt, wt)
 			c.Opf("%s", w.describe())
@@ -49,6 +49,8 @@ func TestC20(t *testing.T) {
 			checkPool("after warm-up")
 			transferred := map[string]bool{} // hex addr -> was the target of a successful transfer (still alive)
 			bumped := map[string]bool{}
+			wt := wt
+			wt.preferUnstake = func(a string) bool { return transferred[a] || bumped[a] }
 			nb := 8 + uniformN(rt, "blocks", 13)
 			for b := 0; b < nb; b++ {
 				dt := time.Duration(pickI64(rt, "dtSecs", 0, 1, 1, 5, 15, 40)) * time.Second
